@@ -70,6 +70,7 @@ fn run(ctx: &mut Ctx) {
             cfgs: cfgs.clone(),
             depth,
             syncs: cfgs.len() > 1,
+            partial: 0,
         };
         let shard = ctx.shard;
         let nsh = ctx.nshards as u64;
